@@ -34,6 +34,12 @@ CHECKS = {
         text="Fault enumeration by the model checker: every obstacle kind (target is a directory, a parent is a regular file, the export directory is a file, path above the root, non-exportable root, dependency above the root) before every call that it blocks, with and without earlier exports, then removal and retry, then a further export. TLC checks on the real observations: the blocked call returns Err (never panics, lock never poisoned), a call fails exactly when something is in its way, nothing but its own targets changes, and after the retry the tree is the fault-free one (same exported set => same bytes).",
         note="Trusted: TLC, the harness. Obstacles are placed only where they destroy nothing.",
         design_ref="DESIGN.md section 5 (C17)"),
+    "C09": dict(
+        category="model_checking",
+        technique="TLA+ transcription of ts-rs's and serde_derive's case conversions (Inflection.tla) model-checked by TLC over all identifiers to a length bound; names read from in-process expansions of the real derive and from serde_derive's own case.rs; equality judged by TLC (Trace_Inflection.tla)",
+        text="Exhaustive within the bound: every legal Rust identifier of length <=4 (quick) / <=5 (thorough) over {ASCII lower, ASCII upper, digit, underscore, non-ASCII lower, non-ASCII upper, sharp s} x 8 rules x {struct field, enum variant} (+ struct-variant fields via rename_all_fields and via the variant's own rename_all). TLC checks name_ts = name_serde on the transcriptions and on the names produced by the real derive and by the real serde_derive routine.",
+        note="Trusted: TLC; the regular expressions that read a property name / variant literal out of the expansion (a failure to read is a tool error); serde_derive's source in the offline registry is the oracle. Identifiers on which serde_derive itself panics are outside the domain.",
+        design_ref="DESIGN.md section 5 (C09), 3.7"),
 }
 
 NOT_YET = "check not built yet (work in progress, see DESIGN.md appendix B)"
